@@ -49,24 +49,28 @@ func (Prop) Components() (real, stub []string) {
 }
 
 type scenario struct {
-	ids      []cedar.PolicyID
-	texts    []string
-	pols     []*cedar.Policy
-	polJSON  [][]byte
-	setJSON  []byte
-	ents     types.EntityMap
-	entList  []types.Entity
-	entJSON  []byte
-	req      types.Request
-	vals     []types.Value
-	valJSON  [][]byte
-	breq     batch.Request
-	schema   *fixtures.Schema
-	schemaJS []byte
-	doc      []byte // a document of 0-14 statements (ids policy0..n-1 when loaded)
-	docN     int
-	resolved *resolved.Schema
+	ids          []cedar.PolicyID
+	texts        []string
+	pols         []*cedar.Policy
+	polJSON      [][]byte
+	setJSON      []byte
+	ents         types.EntityMap
+	entList      []types.Entity
+	entJSON      []byte
+	req          types.Request
+	vals         []types.Value
+	valJSON      [][]byte
+	breq         batch.Request
+	schema       *fixtures.Schema
+	schemaJS     []byte
+	doc          []byte // a document of 0-14 statements (ids policy0..n-1 when loaded)
+	docN         int
+	resolved     *resolved.Schema
+	dirtyEntJSON []byte // another entity map / request, decoded first into reused receivers
+	dirtyReqJSON []byte
 }
+
+var dirtyRecord = types.NewRecord(types.RecordMap{"role": types.String("admin"), "a": types.Long(7)})
 
 var idPool = []cedar.PolicyID{"p0", "p1", "p10", "p2", "a", "B", "policy0", "é"}
 
@@ -111,6 +115,14 @@ func genScenario(r *core.Run) *scenario {
 		}
 		sc.polJSON = append(sc.polJSON, js)
 	}
+	// sometimes the very same policy object is registered under a second id
+	if len(sc.ids) > 0 && r.T.Intn(4) == 3 {
+		i := r.T.Intn(len(sc.ids))
+		sc.ids = append(sc.ids, sc.ids[i]+"-alias")
+		sc.texts = append(sc.texts, sc.texts[i])
+		sc.pols = append(sc.pols, sc.pols[i])
+		sc.polJSON = append(sc.polJSON, sc.polJSON[i])
+	}
 	ps := cedar.NewPolicySet()
 	for i, id := range sc.ids {
 		ps.Add(id, sc.pols[i])
@@ -128,6 +140,10 @@ func genScenario(r *core.Run) *scenario {
 		sc.entList = append(sc.entList, byKey[k])
 	}
 	sc.entJSON, _ = json.Marshal(sc.ents)
+	sc.dirtyEntJSON, _ = json.Marshal(g.Entities())
+	dq := g.Request()
+	dq.Context = types.NewRecord(types.RecordMap{"role": types.String("admin"), "a": types.True})
+	sc.dirtyReqJSON, _ = json.Marshal(dq)
 	sc.req = g.Request()
 	nv := 1 + r.T.Intn(3)
 	for i := 0; i < nv; i++ {
@@ -390,6 +406,47 @@ func observe(r *core.Run, sc *scenario, canonical bool) (out []obs, permuted boo
 			c3, e5 := s.MarshalCedar()
 			if e1 == nil && e2 == nil && e3 == nil && e4 == nil && e5 == nil && (!bytes.Equal(c1, c2) || !bytes.Equal(j1, j2) || !bytes.Equal(c1, c3)) && direct == nil {
 				direct = core.Violationf("re-encoding-differs", "re-encoding-differs:Schema", "schema %s encodes differently after it has been encoded in the other format / resolved\n  first:  %s\n  second: %s", sc.schema.Name, clip(string(c1)), clip(string(c2)))
+			}
+		}
+	}
+
+	// decoding is a function of the bytes, not of what the destination held before
+	{
+		var fresh, dirty types.EntityMap
+		if json.Unmarshal(sc.entJSON, &fresh) == nil {
+			_ = json.Unmarshal(sc.dirtyEntJSON, &dirty)
+			if json.Unmarshal(sc.entJSON, &dirty) == nil {
+				b1, _ := json.Marshal(fresh)
+				b2, _ := json.Marshal(dirty)
+				if !bytes.Equal(b1, b2) && direct == nil {
+					direct = core.Violationf("decode-depends-on-receiver", "decode-depends-on-receiver:EntityMap", "decoding the same entity JSON into a fresh variable and into one that held other entities gives different results\n  fresh: %s\n  dirty: %s", clip(string(b1)), clip(string(b2)))
+				}
+			}
+		}
+		var rq1, rq2 types.Request
+		rb, _ := json.Marshal(sc.req)
+		if json.Unmarshal(rb, &rq1) == nil {
+			_ = json.Unmarshal(sc.dirtyReqJSON, &rq2)
+			if json.Unmarshal(rb, &rq2) == nil {
+				b1, _ := json.Marshal(rq1)
+				b2, _ := json.Marshal(rq2)
+				if !bytes.Equal(b1, b2) && direct == nil {
+					direct = core.Violationf("decode-depends-on-receiver", "decode-depends-on-receiver:Request", "decoding the same request JSON into a fresh variable and into a used one gives different results\n  fresh: %s\n  dirty: %s", clip(string(b1)), clip(string(b2)))
+				}
+			}
+		}
+		for i, js := range sc.valJSON {
+			if rec, ok := sc.vals[i].(types.Record); ok {
+				_ = rec
+				var f2 types.Record
+				d2 := dirtyRecord
+				if f2.UnmarshalJSON(js) == nil && d2.UnmarshalJSON(js) == nil {
+					b1, _ := json.Marshal(f2)
+					b2, _ := json.Marshal(d2)
+					if !bytes.Equal(b1, b2) && direct == nil {
+						direct = core.Violationf("decode-depends-on-receiver", "decode-depends-on-receiver:Record", "decoding %s into a fresh Record and into a used one gives different results: %s vs %s", js, b1, b2)
+					}
+				}
 			}
 		}
 	}
